@@ -97,6 +97,25 @@ def profile(**kw):
     return p
 
 
+
+def ctext(alphabet, min_size=0, max_size=20):
+    """Text over a fixed alphabet, drawn as a list of sampled characters.
+
+    (st.text with differing alphabets trips a shrinker bug in Hypothesis 6.168: "N is not in list".)
+    """
+    return st.lists(st.sampled_from(sorted(set(alphabet))), min_size=min_size, max_size=max_size).map(''.join)
+
+
+_UNI = [chr(c) for c in list(range(0x20, 0x7f)) + list(range(0xa0, 0x180)) + [0x394, 0x416, 0x5d0, 0x4e2d, 0x6587, 0x3042,
+                                                                         0x1f600, 0x1d11e, 0x2028, 0x85, 0xfeff, 0x9,
+                                                                         0xb, 0xc, 0x7f, 0x1, 0x0]
+        if chr(c) != '"']
+
+
+def utext(max_size=6):
+    return st.lists(st.sampled_from(_UNI), max_size=max_size).map(''.join)
+
+
 # ---------------------------------------------------------------------------
 # atoms
 
@@ -105,7 +124,7 @@ _ALNUM = 'abcdefghijklmnopqrstuvwxyzABCDEFGHIJKLMNOPQRSTUVWXYZ0123456789'
 
 
 def _ident_tail():
-    seg = st.text(alphabet=_ALNUM, min_size=1, max_size=6)
+    seg = ctext(_ALNUM, min_size=1, max_size=6)
     return st.lists(seg, min_size=1, max_size=3)
 
 
@@ -117,15 +136,14 @@ NASTY_CHUNKS = ['\\', '\\n', '\\t', '\\x4', '\\u12', '\\N', '\\0', "\\'", "'", "
 
 def text_strategy(kind):
     if kind == 'short':
-        return st.text(alphabet='abcdefgh XYZ019.', min_size=0, max_size=8)
+        return ctext('abcdefgh XYZ019.', min_size=0, max_size=8)
     if kind == 'plain':
-        words = st.text(alphabet=PLAIN_TEXT_ALPHABET, min_size=0, max_size=30)
+        words = ctext(PLAIN_TEXT_ALPHABET, min_size=0, max_size=30)
         return st.one_of(words, st.lists(words, min_size=1, max_size=3).map(lambda l: '\n'.join(l)),
                          st.lists(words, min_size=2, max_size=3).map(lambda l: '\r\n   '.join(l)))
     if kind == 'nasty':
-        chunk = st.one_of(st.sampled_from(NASTY_CHUNKS), st.text(alphabet=PLAIN_TEXT_ALPHABET, max_size=12),
-                          st.text(alphabet=st.characters(blacklist_characters='"', blacklist_categories=('Cs',)),
-                                  max_size=6))
+        chunk = st.one_of(st.sampled_from(NASTY_CHUNKS), ctext(PLAIN_TEXT_ALPHABET, max_size=12),
+                          utext(6))
         return st.lists(chunk, min_size=0, max_size=6).map(lambda l: ''.join(l).replace('"', ''))
     raise KeyError(kind)
 
@@ -206,7 +224,7 @@ class _Names(object):
     def label(self):
         # enumeration / bit labels need not be unique across the module
         draw = self.draw
-        return draw(st.sampled_from(_LOW_START)) + draw(st.text(alphabet=_ALNUM, min_size=0, max_size=5))
+        return draw(st.sampled_from(_LOW_START)) + draw(ctext(_ALNUM, min_size=0, max_size=5))
 
 
 class Builder(object):
@@ -440,15 +458,15 @@ class Builder(object):
         if kind == 'octets':
             r = draw(st.integers(0, 2))
             if r == 0:
-                s = draw(st.text(alphabet='abcdefXYZ 0189.-_/', min_size=0 if self.prof['defval_empty_string'] else 1,
+                s = draw(ctext('abcdefXYZ 0189.-_/', min_size=0 if self.prof['defval_empty_string'] else 1,
                                  max_size=10))
                 return {'f': 'string', 't': '"%s"' % s, 's': s}
             if r == 1:
                 n = draw(st.integers(0, 6))
-                digits = draw(st.text(alphabet='0123456789abcdefABCDEF', min_size=2 * n, max_size=2 * n))
+                digits = draw(ctext('0123456789abcdefABCDEF', min_size=2 * n, max_size=2 * n))
                 return {'f': 'hexstr', 't': "'%s'%s" % (digits, draw(st.sampled_from('hH'))), 'digits': digits}
             n = draw(st.integers(0, 3))
-            digits = draw(st.text(alphabet='01', min_size=8 * n, max_size=8 * n))
+            digits = draw(ctext('01', min_size=8 * n, max_size=8 * n))
             return {'f': 'binstr', 't': "'%s'%s" % (digits, draw(st.sampled_from('bB'))), 'digits': digits}
         if kind == 'oid':
             cands = self.visible_nodes(mod)
@@ -811,7 +829,7 @@ _BODY_ALPHABET = 'abcdefghijklmnopqrstuvwxyzABCDFGHIJKLMOPQRSTUVWXYZ0123456789 \
 
 
 def _body(draw, forbid):
-    s = draw(st.text(alphabet=_BODY_ALPHABET, min_size=1, max_size=40))
+    s = draw(ctext(_BODY_ALPHABET, min_size=1, max_size=40))
     for f in forbid:
         s = s.replace(f, '')
     return s or 'x'
@@ -1295,7 +1313,7 @@ def layouts(draw, ntokens, comments=True, minimal=True):
     for i in range(ntokens + 1):
         r = draw(st.integers(0, 11))
         if r == 0 and comments:
-            body = draw(st.text(alphabet='abcdefghij XYZ-:=;{}()"\',.0123456789', max_size=20))
+            body = draw(ctext('abcdefghij XYZ-:=;{}()"\',.0123456789', max_size=20))
             nl = draw(st.sampled_from(('\n', '\r\n', '\r')))
             seps.append(draw(st.sampled_from((' ', '\n', '\t'))) + '--' + body + nl)
         elif r == 1 and minimal:
